@@ -207,7 +207,7 @@ class FortranReader:
 
     def __init__(self, raw_source):
         self.line_offset = 0
-        raw_source = raw_source.strip()
+        raw_source = raw_source.rstrip()
         self.source_lines = raw_source.splitlines()
         self._sanitize_raw_source(raw_source)
 
